@@ -1,4 +1,5 @@
 import Pycoin.Proofs.AddressLemmas
+import Pycoin.Proofs.RealEnv
 /-!
 C08 — addresses and output scripts are in one-to-one correspondence on every network.
 
@@ -10,22 +11,8 @@ over the whole table (`decide +kernel`), so a changed symbol file re-checks them
 namespace Pycoin.Addr
 open Pycoin.Gen.Networks
 
-/-- Python `str.lower()` on ASCII (Bech32 strings are ASCII) -/
-def asciiLower (s : String) : String := String.ofList (s.toList.map Char.toLower)
-
-/-- what the theorems assume of the codecs: the C11 round trips -/
-structure CodecLaws (env : Env) : Prop where
-  /-- C11_b58check_rt -/
-  b58_rt : ∀ d, d ≠ [] → env.b58cDec (env.b58cEnc d) = some d
-  /-- C11_b58check_accepts_iff + C11_b58_enc_dec: an accepted string is the encoding of its payload -/
-  b58_canon : ∀ s d, env.b58cDec s = some d → env.b58cEnc d = s
-  /-- C11 segwit_rt, encode then parse -/
-  seg_rt : ∀ hrp ver prog s, env.segwitEnc hrp ver prog = some s →
-    env.bech32Parse s = some (hrp, ver, prog, if ver = 0 then .bech32 else .bech32m)
-  /-- C11 segwit_rt, parse then encode (Bech32 is case-insensitive: the encoder writes lower case) -/
-  seg_canon : ∀ s hrp ver prog spec, env.bech32Parse s = some (hrp, ver, prog, spec) →
-    (ver = 0 → spec = .bech32) → (ver ≠ 0 → spec = .bech32m) → (prog.length = 20 ∨ prog.length = 32) → ver ≤ 16 →
-    env.segwitEnc hrp ver prog = some (asciiLower s)
+/-- every HRP of the table is one BIP173 allows -/
+theorem C08_table_hrp : ∀ n ∈ all, ∀ hrp, n.addrHrp = some hrp → hrpOk hrp = true := by decide +kernel
 
 /-! ## the generated table -/
 
@@ -87,7 +74,7 @@ theorem isPrefixOf_append (p d : Bytes) : isPrefixOf p (p ++ d) = true := by sim
 
 theorem drop_prefix (p d : Bytes) : (p ++ d).drop p.length = d := by simp
 
-theorem parseB58Addr_hit (env : Env) (laws : CodecLaws env) (net : Network) (hb : net.b58DoubleSha = true)
+theorem parseB58Addr_hit (env : Env) (laws : B58Laws env) (net : Network) (hb : net.b58DoubleSha = true)
     (p : Bytes) (hp : p ≠ []) (mk : Bytes → Info) (h : Bytes) (hl : h.length = 20) (hw : (mk h).wellSized = true) :
     parseB58Addr env net (some p) mk (env.b58cEnc (p ++ h)) = .ok (some (mk h)) := by
   unfold parseB58Addr parseB58Hashed
@@ -96,7 +83,7 @@ theorem parseB58Addr_hit (env : Env) (laws : CodecLaws env) (net : Network) (hb 
     List.length_append, hl, ne_eq, not_true_eq_false, drop_prefix, forInfo_std _ hw, infoForScript_std _ hw, bind, Except.bind,
     pure, Except.pure]
 
-theorem parseB58Addr_miss (env : Env) (laws : CodecLaws env) (net : Network) (hb : net.b58DoubleSha = true)
+theorem parseB58Addr_miss (env : Env) (laws : B58Laws env) (net : Network) (hb : net.b58DoubleSha = true)
     (p q : Bytes) (mk : Bytes → Info) (h : Bytes) (hl : h.length = 20) (hq : q ++ h ≠ [])
     (hsep : ¬ (p.length = q.length ∧ p = q)) :
     parseB58Addr env net (some p) mk (env.b58cEnc (q ++ h)) = .ok none := by
@@ -117,7 +104,7 @@ theorem parseB58Addr_miss (env : Env) (laws : CodecLaws env) (net : Network) (hb
 
 /-- ★ address round trip, Base58 kinds: on every network of the table that defines the prefix, the address of the
 standard P2PKH / P2SH script of any 20-byte hash parses back, on that network, to exactly that script -/
-theorem C08_addr_rt_b58 (env : Env) (laws : CodecLaws env) (net : Network) (hn : net ∈ all) (hb : net.b58DoubleSha = true)
+theorem C08_addr_rt_b58 (env : Env) (laws : B58Laws env) (net : Network) (hn : net ∈ all) (hb : net.b58DoubleSha = true)
     (hdis : net.disabled.contains "address" = false)
     (i : Info) (hk : i.isB58 = true) (hw : i.wellSized = true) (addr : String)
     (ha : forScriptInfo env net i = .ok (some addr)) :
@@ -177,8 +164,10 @@ theorem parseB58Addr_none_of_dec (env : Env) (net : Network) (pfx : Option Bytes
   split <;> simp_all
 
 /-- ◐ address round trip, segwit kinds.  Extra hypothesis `hx`: the Bech32 string is not *also* a valid Base58Check
-string (the Base58 parsers are tried first; a collision needs every character to fall in both alphabets and a 32-bit
-double-SHA-256 checksum to match, which the model treats as a property of the codec, not of this code). -/
+string (the Base58 parsers are tried first).  This is a hash-coincidence hypothesis, not a structural one: `1` and most
+Bech32 data characters are Base58 characters and HRPs such as `bc`, `tb`, `grs` consist of Base58 characters only (only
+`ltc`/`tltc` contain the non-Base58 `l`), so a Bech32 address can be a string over the Base58 alphabet; it is then
+refused by Base58Check only because the last four decoded bytes would have to equal the double SHA-256 of the rest. -/
 theorem C08_addr_rt_segwit_partial (env : Env) (laws : CodecLaws env) (net : Network) (hn : net ∈ all)
     (hdis : net.disabled.contains "address" = false)
     (i : Info) (hk : i.isSegwit = true) (hw : i.wellSized = true) (addr : String)
@@ -196,18 +185,19 @@ theorem C08_addr_rt_segwit_partial (env : Env) (laws : CodecLaws env) (net : Net
     | none => cases i <;> simp [forScriptInfo, forP2pkhWit, forP2shWit, forP2tr, hh, Info.isSegwit] at ha hk
     | some hrp =>
       have hph : net.parseHrp = some hrp := by rw [← htab.2.2, hh]
+      have hok := C08_table_hrp net hn hrp hh
       cases i with
       | p2pkhWit h =>
         simp only [Info.wellSized, decide_eq_true_eq] at hw
         simp only [forScriptInfo, forP2pkhWit, hh, hw, ne_eq, not_true_eq_false, if_false, Except.ok.injEq] at ha
-        have hp := laws.seg_rt _ _ _ _ ha
+        have hp := laws.seg_rt _ _ _ _ hok (by omega) (by omega) ha
         simp only [parseP2pkhSegwit, parseBech32m, hp, hph, if_true, hw, ne_eq, not_true_eq_false, if_false, and_false,
           forInfo_std (.p2pkhWit h) (by simp [Info.wellSized, hw]), infoForScript_std (.p2pkhWit h) (by simp [Info.wellSized, hw]),
           bind, Except.bind, pure, Except.pure, and_self, false_and]
       | p2shWit h =>
         simp only [Info.wellSized, decide_eq_true_eq] at hw
         simp only [forScriptInfo, forP2shWit, hh, hw, ne_eq, not_true_eq_false, if_false, Except.ok.injEq] at ha
-        have hp := laws.seg_rt _ _ _ _ ha
+        have hp := laws.seg_rt _ _ _ _ hok (by omega) (by omega) ha
         have h20 : ¬ (h.length = 20) := by omega
         simp only [parseP2pkhSegwit, parseP2shSegwit, parseBech32m, hp, hph, if_true, hw, h20, ne_eq, not_true_eq_false, if_false,
           not_false_eq_true, and_false,
@@ -217,7 +207,7 @@ theorem C08_addr_rt_segwit_partial (env : Env) (laws : CodecLaws env) (net : Net
       | p2tr h =>
         simp only [Info.wellSized, decide_eq_true_eq] at hw
         simp only [forScriptInfo, forP2tr, hh, Except.ok.injEq] at ha
-        have hp := laws.seg_rt _ _ _ _ ha
+        have hp := laws.seg_rt _ _ _ _ hok (by omega) (by omega) ha
         have h20 : ¬ (h.length = 20) := by omega
         simp only [parseP2pkhSegwit, parseP2shSegwit, parseP2tr, parseBech32m, hp, hph, if_true, hw, h20, ne_eq, not_true_eq_false,
           if_false, not_false_eq_true, and_false, Nat.zero_ne_one, Nat.one_ne_zero,
@@ -402,6 +392,50 @@ theorem C08_key_address (env : Env) (net : Network) (sec : Bytes) (h20 : ∀ m, 
   · simp only [bip84Address, forScript, infoForScript_std _ w2, bind, Except.bind, forScriptInfo]
   · simp only [bip49Address, forInfo_std _ w2, forP2s, forScript, infoForScript_std _ w3, bind, Except.bind, forScriptInfo]
 
+/-! ## the same theorems about the real codecs: no codec hypothesis left
+
+`real_laws : CodecLaws realEnv` (Proofs/RealEnv.lean) instantiates the hypotheses with the C11 theorems
+(`C11_b58check_rt`, `C11_b58check_accepts_iff`, `C11_b58_enc_dec`, `C11_b58_rejects`, `C11_segwit_rt`, `C11_segwit_rt_conv`)
+for the very `Env` the driver evaluates. -/
+
+/-- ★ address round trip for P2PKH / P2SH on every network of the table, with the modelled Base58Check -/
+theorem C08_addr_rt_b58_real (net : Network) (hn : net ∈ all) (hb : net.b58DoubleSha = true)
+    (hdis : net.disabled.contains "address" = false)
+    (i : Info) (hk : i.isB58 = true) (hw : i.wellSized = true) (addr : String)
+    (ha : forScriptInfo realEnv net i = .ok (some addr)) :
+    forScript realEnv net (stdScript i) = .ok (some addr) ∧
+    parseAddress realEnv net addr = .ok (some i) ∧ forInfo i = .ok (stdScript i) :=
+  C08_addr_rt_b58 realEnv real_b58_laws net hn hb hdis i hk hw addr ha
+
+/-- ★ accepted strings re-encode to themselves, with the modelled Base58Check and Bech32/Bech32m -/
+theorem C08_accepted_reencodes_real (net : Network) (hn : net ∈ all) (t : String) (i : Info)
+    (h : parseAddress realEnv net t = .ok (some i)) :
+    i.wellSized = true ∧ forInfo i = .ok (stdScript i) ∧
+    ∃ a, forScriptInfo realEnv net i = .ok (some a) ∧ forScript realEnv net (stdScript i) = .ok (some a) ∧
+      (a = t ∨ a = asciiLower t) :=
+  C08_accepted_reencodes realEnv real_laws net hn t i h
+
+/-- ★ cross-network acceptance for all ordered pairs of the table, with the modelled codecs -/
+theorem C08_cross_network_real (n₁ n₂ : Network) (h₁ : n₁ ∈ all) (h₂ : n₂ ∈ all)
+    (script : Bytes) (addr : String) (hmade : forScript realEnv n₁ script = .ok (some addr)) (i : Info)
+    (hacc : parseAddress realEnv n₂ addr = .ok (some i)) :
+    ∃ a, forScript realEnv n₂ (stdScript i) = .ok (some a) ∧ (a = addr ∨ a = asciiLower addr) :=
+  C08_cross_network realEnv real_laws n₁ n₂ h₁ h₂ script addr hmade i hacc
+
+/-- ◐ segwit round trip with the modelled codecs.  The one hypothesis left, `hx`, says the Bech32 string is not *also*
+accepted by the Base58Check decoder (the Base58 parsers run first).  It cannot be discharged from the table: `1` and
+most Bech32 data characters are Base58 characters, and HRPs such as `bc`, `tb`, `ltc` consist of Base58 characters
+only, so a Bech32 address may well be a string over the Base58 alphabet; what then keeps it from being accepted is
+that the last four decoded bytes would have to equal the double SHA-256 of the rest — a hash-coincidence statement
+(probability 2⁻³² per string), not a structural one. -/
+theorem C08_addr_rt_segwit_real_partial (net : Network) (hn : net ∈ all)
+    (hdis : net.disabled.contains "address" = false)
+    (i : Info) (hk : i.isSegwit = true) (hw : i.wellSized = true) (addr : String)
+    (ha : forScriptInfo realEnv net i = .ok (some addr)) (hx : realEnv.b58cDec addr = none) :
+    forScript realEnv net (stdScript i) = .ok (some addr) ∧
+    parseAddress realEnv net addr = .ok (some i) ∧ forInfo i = .ok (stdScript i) :=
+  C08_addr_rt_segwit_partial realEnv real_laws net hn hdis i hk hw addr ha hx
+
 /-! ## one `parseable_str` object, several networks -/
 
 /-- a slot is absent or holds the decoder's own answer -/
@@ -564,12 +598,12 @@ theorem toy_laws : CodecLaws toyEnv where
         · cases h
       · cases h
     · cases h
-  seg_rt _ _ _ _ h := by simp [toyEnv] at h
+  seg_rt _ _ _ _ _ _ _ h := by simp [toyEnv] at h
   seg_canon _ _ _ _ _ h := by simp [toyEnv] at h
 
 /-- the round-trip theorem applies to a concrete network, kind and hash -/
 example : parseAddress toyEnv net_btc (toyEnv.b58cEnc ([0] ++ List.replicate 20 7)) = .ok (some (.p2pkh (List.replicate 20 7))) :=
-  (C08_addr_rt_b58 toyEnv toy_laws net_btc (by decide) (by decide) (by decide) (.p2pkh (List.replicate 20 7)) rfl (by decide) _
+  (C08_addr_rt_b58 toyEnv toy_laws.toB58Laws net_btc (by decide) (by decide) (by decide) (.p2pkh (List.replicate 20 7)) rfl (by decide) _
     (by rfl)).2.1
 
 end Pycoin.Addr
